@@ -12,34 +12,56 @@ import (
 
 type BasicPrivateIssuer struct {
 	tokenKey *oprf.PrivateKey
+
+	// Serialized keys. The P-384 group elements of the OPRF library are
+	// normalised in place whenever they are serialized (also while a proof is
+	// generated), so a key object must not be used by concurrent calls: every
+	// call works on its own copy of the key.
+	tokenKeyEnc  []byte
+	publicKeyEnc []byte
 }
 
 func NewBasicPrivateIssuer(key *oprf.PrivateKey) *BasicPrivateIssuer {
-	// The key object computes and caches its public key on first use without
-	// synchronisation; do that now, before the issuer can be shared between
-	// goroutines.
-	key.Public()
-
-	return &BasicPrivateIssuer{
-		tokenKey: key,
-	}
-}
-
-func (i *BasicPrivateIssuer) TokenKey() *oprf.PublicKey {
-	return i.tokenKey.Public()
-}
-
-func (i *BasicPrivateIssuer) TokenKeyID() []byte {
-	pkIEnc, err := i.tokenKey.Public().MarshalBinary()
+	tokenKeyEnc, err := key.MarshalBinary()
 	if err != nil {
 		panic(err)
 	}
-	keyID := sha256.Sum256(pkIEnc)
+	publicKeyEnc, err := key.Public().MarshalBinary()
+	if err != nil {
+		panic(err)
+	}
+
+	return &BasicPrivateIssuer{
+		tokenKey:     key,
+		tokenKeyEnc:  tokenKeyEnc,
+		publicKeyEnc: publicKeyEnc,
+	}
+}
+
+// callKey returns a copy of the token key for use by a single call.
+func (i BasicPrivateIssuer) callKey() *oprf.PrivateKey {
+	key := new(oprf.PrivateKey)
+	if err := key.UnmarshalBinary(oprf.SuiteP384, i.tokenKeyEnc); err != nil {
+		panic(err)
+	}
+	return key
+}
+
+func (i *BasicPrivateIssuer) TokenKey() *oprf.PublicKey {
+	publicKey := new(oprf.PublicKey)
+	if err := publicKey.UnmarshalBinary(oprf.SuiteP384, i.publicKeyEnc); err != nil {
+		panic(err)
+	}
+	return publicKey
+}
+
+func (i *BasicPrivateIssuer) TokenKeyID() []byte {
+	keyID := sha256.Sum256(i.publicKeyEnc)
 	return keyID[:]
 }
 
 func (i BasicPrivateIssuer) Evaluate(req *BasicPrivateTokenRequest) ([]byte, error) {
-	server := oprf.NewVerifiableServer(oprf.SuiteP384, i.tokenKey)
+	server := oprf.NewVerifiableServer(oprf.SuiteP384, i.callKey())
 
 	e := group.P384.NewElement()
 	err := e.UnmarshalBinary(req.BlindedReq)
@@ -76,7 +98,7 @@ func (i BasicPrivateIssuer) Type() uint16 {
 }
 
 func (i BasicPrivateIssuer) Verify(token tokens.Token) error {
-	server := oprf.NewVerifiableServer(oprf.SuiteP384, i.tokenKey)
+	server := oprf.NewVerifiableServer(oprf.SuiteP384, i.callKey())
 
 	tokenInput := token.AuthenticatorInput()
 	output, err := server.FullEvaluate(tokenInput)
